@@ -376,6 +376,90 @@ func vC12Sweep(c *vCtx, metric DistanceKind, m int) {
 	c.Bound = fmt.Sprintf("sweep sizes 1..%d", maxN)
 }
 
+// emptyCause labels an empty answer: whether any live vertex is reachable at all, and if
+// none is, whether every live vertex is cut off by the known pruning defect (why()).
+func (s *vHnswSys) emptyCause(reach map[uint32]bool, bad string) string {
+	if bad != "" {
+		return "graph-invariant-broken"
+	}
+	whys := map[string]bool{}
+	for id := range s.m.live {
+		if reach[id] {
+			return "some-live-reachable"
+		}
+		whys[s.why(id, reach)] = true
+	}
+	if len(whys) == 1 {
+		for w := range whys {
+			return "no-live-node-reachable:" + w
+		}
+	}
+	return "no-live-node-reachable"
+}
+
+// vC12Tails: for every n in 1..maxN: n structured vectors (levels 0/1/2), then
+//
+//	tail 0: ALL removed (no flush), one new vector added, flush, id 1 re-added
+//	tail 1: all but the LAST removed, one more added, flush
+//	tail 2: one vector (the entry point's id) removed and re-added, flush
+//
+// judged after every step of the tail. Sizes above 2M+1 can hit the known pruning defect
+// (F6); its witness predicate keeps that separate from anything else.
+func vC12Tails(c *vCtx, metric DistanceKind, m, maxN int) {
+	for n := 1; n <= maxN; n++ {
+		for tail := 0; tail < 3; tail++ {
+			if c.Expired() {
+				c.Bound = fmt.Sprintf("tail sizes 1..%d", n-1)
+				return
+			}
+			cfg := vHnswCfg{Metric: metric, Dim: 3, M: m, Ef: 2*m + 6, MaxN: maxN + 3, MaxRem: 2 * maxN, MaxFl: 3, MaxLvl: maxN, Vals: 9}
+			s := &vHnswSys{c: c, cfg: cfg, cfgS: cfg.String() + fmt.Sprintf(" tails n=%d tail=%d", n, tail), vals: vStructuredVecs(3, n+2)}
+			s.queries = [][]float32{s.vals[0], s.vals[n/2], {0.5, 0.5, 0.5}, {-40, 3, 1}}
+			s.Reset()
+			var hist []vOp
+			ap := func(op vOp, check bool) {
+				s.Apply(op, hist, check)
+				hist = append(hist, op)
+				c.Transitions++
+			}
+			for i := 0; i < n; i++ {
+				lvl := 0
+				if i%6 == 5 {
+					lvl = 1
+				}
+				if i%17 == 16 {
+					lvl = 2
+				}
+				ap(vOp{K: "Add", A: i + 1, B: i, C: lvl}, false)
+			}
+			switch tail {
+			case 0:
+				for i := 0; i < n; i++ {
+					ap(vOp{K: "Remove", A: i + 1}, false)
+				}
+				ap(vOp{K: "Add", A: n + 1, B: n}, true)
+				ap(vOp{K: "Flush"}, true)
+				ap(vOp{K: "ReAdd", A: 1, B: n + 1}, true)
+			case 1:
+				for i := 0; i < n-1; i++ {
+					ap(vOp{K: "Remove", A: i + 1}, i == n-2)
+				}
+				ap(vOp{K: "Add", A: n + 1, B: n}, true)
+				ap(vOp{K: "Flush"}, true)
+			case 2:
+				ep := int(s.idx.entryPoint)
+				ap(vOp{K: "Remove", A: ep}, true)
+				ap(vOp{K: "ReAdd", A: ep, B: n + 1}, true)
+				ap(vOp{K: "Flush"}, true)
+			}
+			c.Traces++
+			c.NewState(s.cfgS)
+		}
+	}
+	c.Sample(fmt.Sprintf("M=%d: n structured vectors, then all removed + one added + flush + re-add / all but the last removed + add + flush / entry point updated + flush; every n in 1..%d", m, maxN))
+	c.Bound = fmt.Sprintf("tail sizes 1..%d", maxN)
+}
+
 func (s *vHnswSys) observe(h []string) {
 	mkey := s.m.key()
 	// (c) structural invariant
@@ -419,18 +503,7 @@ func (s *vHnswSys) observe(h []string) {
 				continue
 			}
 			if len(s.m.live) > 0 && len(res) == 0 {
-				cause := "some-live-reachable"
-				if bad == "" {
-					any := false
-					for id := range s.m.live {
-						if reach[id] {
-							any = true
-						}
-					}
-					if !any {
-						cause = "no-live-node-reachable"
-					}
-				}
+				cause := s.emptyCause(reach, bad)
 				s.c.Violation("empty-result-with-live-vectors", cause, s.cfgS, h, fmt.Sprintf("q=%v k=%d returned nothing although %d live vectors exist", q, k, len(s.m.live)))
 			}
 			// non-emptiness does not depend on the beam width: also with efSearch 1 and 2
@@ -443,7 +516,7 @@ func (s *vHnswSys) observe(h []string) {
 				if err != nil {
 					s.c.Violation("search-error", "", s.cfgS, h, err.Error())
 				} else if len(s.m.live) > 0 && len(r2) == 0 {
-					s.c.Violation("empty-result-with-live-vectors", fmt.Sprintf("efSearch=%d", ef), s.cfgS, h, fmt.Sprintf("q=%v k=%d efSearch=%d returned nothing although %d live vectors exist", q, k, ef, len(s.m.live)))
+					s.c.Violation("empty-result-with-live-vectors", fmt.Sprintf("efSearch=%d:%s", ef, s.emptyCause(reach, bad)), s.cfgS, h, fmt.Sprintf("q=%v k=%d efSearch=%d returned nothing although %d live vectors exist", q, k, ef, len(s.m.live)))
 				} else if msg := vAcceptSound(r2, vLiveCands(s.cfg.Metric, s.m.live, q), k, true); msg != "" {
 					s.c.Violation("unsound-result", vCauseVec(s.m, r2), s.cfgS, h, fmt.Sprintf("q=%v k=%d efSearch=%d: %s; got [%s]", q, k, ef, msg, vResStr(r2)))
 				}
@@ -585,9 +658,25 @@ func init() {
 					sh = append(sh, vShard{Name: fmt.Sprintf("sweep/%s/M%d", metric, m), Run: func(c *vCtx) { vC12Sweep(c, metric, m) }})
 				}
 			}
+			for _, m := range []int{2, 3, 4, 8, 16} {
+				m := m
+				maxN := 3*m + 4
+				if tier == "thorough" {
+					maxN = 6*m + 8
+				}
+				sh = append(sh, vShard{Name: fmt.Sprintf("tails/M%d", m), Run: func(c *vCtx) { vC12Tails(c, Euclidean, m, maxN) }})
+			}
 			return sh
 		},
 		Replay: func(c *vCtx, v *vViolation) bool {
+			if i := strings.Index(v.Config, " tails n="); i >= 0 {
+				var n int
+				fmt.Sscanf(v.Config[i:], " tails n=%d", &n)
+				cfg := vParseHnswCfg(v.Config)
+				vC12Tails(c, cfg.Metric, cfg.M, n)
+				_, ok := c.viol[v.Sig()]
+				return ok
+			}
 			if strings.Contains(v.Config, " sweep n=") {
 				cfg := vParseHnswCfg(v.Config)
 				vC12Sweep(c, cfg.Metric, cfg.M)
